@@ -9,4 +9,5 @@ for l in open("/verif/properties.jsonl"):
     break
 t = open("/verif/scripts/mutant_brief_template.md").read()
 anch = "; ".join(d["anchors"]["files"] + [m["where"] for m in d["anchors"].get("mechanism", [])])
-print(t.format(WT=wt, TAG=f"mut_{pid}{tag}", ID=pid, TITLE=d["title"], STATEMENT=d["statement"], QUANT=d["quantifier"]["text"], ANCHORS=anch))
+avoid = ("\n\nNOTE: an earlier seeded change for this property already did this: \"" + sys.argv[3] + "\" — yours must use a DIFFERENT mechanism in a different function/branch (prefer a rarely exercised feature, element type or option that the property still covers).\n") if len(sys.argv) > 3 else ""  # AVOID
+print(t.format(WT=wt, TAG=f"mut_{pid}{tag}", ID=pid, TITLE=d["title"], STATEMENT=d["statement"], QUANT=d["quantifier"]["text"], ANCHORS=anch) + avoid)
